@@ -16,7 +16,7 @@ CLAIMED = {
             "1e9/1.7e12, x 16-30 engine configurations (incl. lineSpacing 0 with zero-width stubs) + 3 input-dependent ones; clusters of "
             "5-16 and 50-200 labels (thorough: every size 1..200); a tied block of narrow labels plus one wide one with an outlier at "
             "every distance; two groups at every distance under very low density; every 4th case builds its nodes the way Timeline "
-            "does (width assigned after construction). The oracle is the property's own inequality on every pair of "
+            "does (width assigned after construction), every 8th after the labels were laid out once with a placeholder width. The oracle is the property's own inequality on every pair of "
             "every layer. Exhaustive inside the bound, silent about inputs outside the grids." + _N,
             "trusted: the invariant evaluator in mc/layout.py; float slack 1e-6 + 4e-16*|position|*(items+2)", "DESIGN.md sections 4 C01, 10"),
     "C02": (_LAY + "comparison with an exact isotonic least-squares reference model (PAVA over rationals)",
@@ -42,12 +42,13 @@ CLAIMED = {
     "C05": ("bounded-exhaustive exploration of complete small problem spaces (DAG and cyclic constraint graphs, weights, scales, "
             "relabellings, re-solving) on the real vpsc.Solver, decided by an exact weak-duality optimality certificate (max-flow "
             "multipliers) and an exact active-set QP reference",
-            "Every instance of the stated small spaces (n<=3 with duplicates and 16 weight/scale vectors; n=4; thorough n=5 and "
-            "families to 60 variables and every DAG on 6 variables with <= 6 edges; every multiset of <=3/4 directed edges incl. "
+            "Every instance of the stated small spaces (n<=3 with duplicates and 16 weight/scale vectors; n=4; deep-narrow parametric "
+            "families - chains, walled chains, stars, ladders, layered DAGs x desired / gap / weight patterns - for every n to 60 (thorough 100); thorough n=5 and "
+            "every DAG on 6 variables with <= 6 edges; every multiset of <=3/4 directed edges incl. "
             "contradictory cycles; every pair of desired vectors on the re-solve path, on the same solver and on a new Solver over the "
             "same objects) is solved by the real solver and checked for termination, feasibility, cost consistency "
             "and optimality: a dual lower bound evaluated in rationals proves the returned cost is within 1e-4 of optimal; rejections "
-            "are confirmed by the exact QP. Irregular DAGs with >= 7 variables, and violations inside a numeric window far below the value grid, are outside the scope (one seeded change escapes there)." + _N,
+            "are confirmed by the exact QP. Irregular DAGs with >= 7 variables outside the families, and violations inside a numeric window far below the value grid, are outside the scope (one seeded change escapes there)." + _N,
             "trusted: mc/oracles.py (dual bound arithmetic, qp_exact), self-tested against PAVA in ./setup", "DESIGN.md sections 4 C05, 10"),
     "C06": ("level-synchronous breadth-first search over API-call histories (set labels / re-present stale nodes / compute / "
             "re-configure / other live engines, also on the same nodes or on clones of them / stand-alone distributor / append to the caller's list / continue with clones) on "
@@ -63,7 +64,7 @@ CLAIMED = {
             "exact affine model of the caller's own data",
             "Every dataset sequence of <=2 (thorough <=3) data over a 36-letter alphabet per scale kind (numeric / datetime, date, "
             "bare time; caller-supplied and default scale; a custom timeFn accessor) x 80 configurations x 2 back-ends, plus axes of ~2000 and "
-            "~40000 units; the oracle checks counts, axis, dot and "
+            "~40000 units and datetimes with microseconds on a 3 ms axis; the oracle checks counts, axis, dot and "
             "tick positions on one affine time function, link way-points layer by layer and end point, box sizes (datum's size plus "
             "padding; line height read off the drawing) and texts." + _N,
             "trusted: parsers and geometric model in mc/draw.py, mc/drawcases.py", "DESIGN.md sections 4 C07, 10"),
@@ -80,7 +81,7 @@ CLAIMED = {
     "C10": ("level-synchronous breadth-first search over construct/export histories on 5-6 timeline specs that together use every "
             "option group, every history replayed on a purged and re-imported library, states = fingerprints of instances plus all "
             "labella module/class globals; every ordered pair of 32 default-scale timelines over all tick units and the year-step thresholds; three exports in a row of one "
-            "timeline over a grid of data extents; byte comparison with fresh-process references",
+            "timeline over a grid of data extents, followed by a timeline with the caller's own TimeScale(fmt=..) over the same data; byte comparison with fresh-process references",
             "All histories to depth 8 with one back-end per spec (thorough: both back-ends, 6 specs, depth 7) over new(X)/export(X), "
             "all 1024 ordered pairs of the span-ladder timelines, and repeated exports for ~700 (thorough ~1400) data extents; the oracle is byte equality with the document produced alone in "
             "a fresh interpreter. Scale subclasses, object lifetimes and in-place edits of a live timeline's options are not "
@@ -95,7 +96,7 @@ CLAIMED = {
             "trusted: parsers; 10 s CPU horizon per export", "DESIGN.md sections 4 C11, 10"),
     "C12": ("exhaustive grid of domains/ranges/queries (incl. near-tie domains and queries just off the end points) against an "
             "exact rational affine map, constructor forms, plus breadth-first search over API-call histories "
-            "(domain/range/clamp/nice/interpolate/copy/deepcopy, getter read-modify-write, caller-kept lists, one-shot iterators on a pool of "
+            "(domain/range/clamp/nice/interpolate/copy/deepcopy, getter read-modify-write, caller-kept lists of ints and of floats, a second scale handed the first one's getter lists, one-shot iterators on a pool of "
             "scales) with aliasing-aware state fingerprints",
             "E-INPUT: all (domain, range, query) combinations of a 14-value float grid plus near-tie domains; the map through the reported "
             "end points after nice(m) for every ordered pair of the integers and halves -10..20; E-HIST: every call history up to depth 4 "
@@ -109,7 +110,7 @@ CLAIMED = {
             "tick-set invariants",
             "Every admissible ordered pair from the value grid x 101 counts; 43k domains on and beside the three step-switching "
             "thresholds; sequences on one live scale (ticks, nice / domain / near-by domain / copy, ticks; formatter kept across a "
-            "later tickFormat); invariants on step form, spacing, completeness, count, labels." + _N,
+            "later tickFormat; a tick iterator abandoned after its first element, then ticks again on this and another scale); invariants on step form, spacing, completeness, count, labels." + _N,
             "trusted: float tolerances stated in the module", "DESIGN.md sections 4 C13, 10"),
     "C14": ("bounded-exhaustive enumeration of linear domains (C13 grid) and time domains (calendar-critical start instants x span "
             "ladder x counts x orientations) on the real nice(); widening/roundness invariants with a calendar reference",
@@ -122,7 +123,7 @@ CLAIMED = {
             "datetime subclass); exact rational reference; round trip within 1 ms; agreement with LinearScale." + _N,
             "trusted: datetime arithmetic for naive epoch milliseconds", "DESIGN.md sections 4 C15, 10"),
     "C16": ("bounded-exhaustive enumeration of time domains (calendar-critical start instants x 42-rung span ladder x counts x "
-            "orientations; spans on and beside count x table entry), scale/copy call sequences and plain requests after ticks(count, step) or after a "
+            "orientations; spans on and beside count x table entry), scale/copy call sequences, zoom sequences of 21-42 domain() calls on one live scale, and plain requests after ticks(count, step) or after a "
             "scale with its own method table, on the real TimeScale.ticks(); tick invariants with a calendar reference",
             "Every combination of the stated grids; oracle derives the calendar class from the smallest gap and checks every tick "
             "against R-CAL; count and gap-ratio bounds; sub-millisecond-per-tick domains; copies re-domained and asked for ticks in "
@@ -130,7 +131,7 @@ CLAIMED = {
     "C17": ("complete enumeration of every day in the year set x 3 instants x 7 units x floor/ceil/round/offset and a grid of ranges "
             "(also through the plural aliases), against a calendar reference model (datetime/timedelta/calendar)",
             "Thorough covers every day 1900-2200, all k in 0..400 for 12 years and three enumerations of > 10^6 boundaries; quick covers "
-            "9 boundary years; ranges over month-end/week-boundary starts x 6 spans x steps 1..12, 13..61 and 100..3600; one year of operations "
+            "9 boundary years; ranges over month-end/week-boundary starts x 6 spans x steps 1..12, 13..61 and 100..3600; enumerations of > 10^5 seconds/minutes/hours with steps 7 and 12 (thorough 1, 5, 7..12); one year of operations "
             "under three process-wide settings (calendar.setfirstweekday, decimal context, logging level)." + _N,
             "trusted: mc/cal.py; week numbering for dt>1 judged numbering-agnostically", "DESIGN.md sections 4 C17, 10"),
     "C18": ("exhaustive re-execution of enumerated calendar/scale/tick/nice/export computations under 8 process time zones (tzset; incl. a "
